@@ -29,7 +29,6 @@
 
 #include <cstddef>
 #include <cstdint>
-#include <functional>
 #include <stdexcept>
 #include <string>
 
@@ -70,7 +69,13 @@ namespace gpuemu {
     return s;
   }
 
-  typedef std::function<void()> ItemFn;
+  // One work-item's body: a plain function pointer + context (no std::function: translation units
+  // with many kernels must stay cheap to compile).  runGrid() below also accepts any callable.
+  struct ItemFn {
+    void (*fn)(void *ctx);
+    void *ctx;
+    void operator () () const { fn(ctx); }
+  };
 
   // Runs all items of the current group (cur().group/ngroups/lsize are set); must set cur().local
   // before each call of item().
@@ -124,7 +129,7 @@ namespace gpuemu {
   }
 
   // The launch.  `item` is called once per work-item with cur() describing it.
-  inline void runGrid(const size_t ngroups[3], const size_t lsize[3], const ItemFn &item) {
+  inline void runGridFn(const size_t ngroups[3], const size_t lsize[3], const ItemFn &item) {
     size_t total = 1;
     for (int d = 0; d < 3; ++d) {
       if (!ngroups[d] || !lsize[d]) {
@@ -160,6 +165,16 @@ namespace gpuemu {
         }
       }
     }
+  }
+
+  // convenience: any callable `void f()` (a lambda capturing the kernel arguments by reference)
+  template <class F>
+  inline void runGrid(const size_t ngroups[3], const size_t lsize[3], const F &f) {
+    struct Call {
+      static void call(void *ctx) { (*static_cast<const F*>(ctx))(); }
+    };
+    ItemFn item = {&Call::call, const_cast<void*>(static_cast<const void*>(&f))};
+    runGridFn(ngroups, lsize, item);
   }
 
   // Uniform entry point of one emulated device kernel, produced by the harness generator next to
